@@ -4,7 +4,11 @@
 //! Explicit-state enumeration of governance configurations (control-plane
 //! action sequences over `actions::*_ALPHABET`, every prefix is itself a
 //! configuration, so the battery runs "after every control action"), times the
-//! two Principals, times the read battery. Relational oracle: the answer a
+//! Principals, times the entry points of a request (`entries`: no Delegation
+//! chain named / every chain the Principal could name, and a few that are not
+//! chains), times the read battery. The Space's default classification is part
+//! of the configuration (host actions `SpDef*`): AuthModel resolves the label of
+//! the never-labelled element against it. Relational oracle: the answer a
 //! restricted Principal gets on the full Nexus equals, after
 //! canonicalisation (`battery` docs), the answer the OWNER gets on a second
 //! Nexus that contains only the elements AuthModel says the Principal may
@@ -25,7 +29,7 @@ use vcore::{Run, Violation, util};
 use vgov::actions::{Action, Cfg, FULL_ALPHABET, QUICK_ALPHABET};
 use vgov::battery::{self, Canon, Item, Oracle};
 use vgov::fixture::fresh_nexus;
-use vgov::model::{Dec, GovModel, Res};
+use vgov::model::{Dec, Entry, GovModel, Parent, Res};
 use vgov::pop::{self, Built, N, POP};
 
 const MINI: &[&str] = &["count-concepts", "search-alpha", "history-space", "primer", "export-concepts", "describe-tx-hidden", "as-of-before-labels"];
@@ -43,7 +47,8 @@ fn matrix_resources(built: &Built) -> Vec<(Res, ResourceContext)> {
         let m = Res {
             kind: el.kind_str().into(),
             schema_ref: el.schema_ref(),
-            class: el.effective_class().into(),
+            // "" = never labelled: AuthModel resolves it to the Space default of the configuration
+            class: el.class.into(),
             key: el.key.into(),
         };
         let i = ResourceContext {
@@ -74,16 +79,18 @@ fn matrix_resources(built: &Built) -> Vec<(Res, ResourceContext)> {
 /// The Principal's whole resolved authority as the model sees it: every cell
 /// of the decision matrix plus the mask choice per element. `None` when the
 /// documentation leaves a mask choice open (the battery then always runs).
-fn view_key(model: &GovModel, who: usize) -> Option<u64> {
+fn view_key(model: &GovModel, who: usize, entry: &Entry) -> Option<u64> {
     let (strength, _) = strength_of(who);
-    let mut text = String::new();
+    // the two entry points are answered separately: the same resolved authority
+    // reached by naming a chain is a different case of the battery
+    let mut text = String::from(if entry.is_named() { "named|" } else { "ambient|" });
     let mut resources = vec![Res::space()];
     for el in POP {
-        resources.push(Res { kind: el.kind_str().into(), schema_ref: el.schema_ref(), class: el.effective_class().into(), key: el.key.into() });
+        resources.push(Res { kind: el.kind_str().into(), schema_ref: el.schema_ref(), class: el.class.into(), key: el.key.into() });
     }
     for perm in MATRIX_PERMS {
         for r in &resources {
-            match model.decide(who, strength, perm, r) {
+            match model.decide_via(who, strength, perm, r, entry) {
                 Dec::Deny => text.push('d'),
                 Dec::GateUnspecified => text.push('u'),
                 Dec::Allow { masks, open } => {
@@ -97,6 +104,47 @@ fn view_key(model: &GovModel, who: usize) -> Option<u64> {
         }
     }
     Some(util::fnv64(text.as_bytes()))
+}
+
+/// The entry points a Principal is exercised through in one configuration:
+/// no chain named, then — for every Delegation naming it as delegate, in
+/// force or not — that Delegation alone and the whole chain up to its root;
+/// plus the chains that are not chains: a Delegation conferred on somebody
+/// else, and two Delegations of which the second does not descend from the
+/// first.
+fn entries(model: &GovModel, who: usize) -> Vec<Entry> {
+    let mut out = vec![Entry::Ambient];
+    let mut push = |e: Entry| {
+        if !out.contains(&e) {
+            out.push(e);
+        }
+    };
+    for (i, d) in model.delegs.iter().enumerate() {
+        if d.to == who {
+            push(Entry::Named(vec![i]));
+            let mut chain = vec![i];
+            let mut at = i;
+            while let Parent::Deleg(p) = model.delegs[at].parent {
+                chain.insert(0, p);
+                at = p;
+                push(Entry::Named(chain.clone()));
+            }
+            for (a, _) in model.delegs.iter().enumerate() {
+                if a != i && d.parent != Parent::Deleg(a) {
+                    push(Entry::Named(vec![a, i]));
+                }
+            }
+        } else if who != 3 || !model.owners.contains(&3) {
+            push(Entry::Named(vec![i]));
+        }
+    }
+    out
+}
+
+/// (Principal, entry point) pairs of a configuration, in the fixed order
+/// `eval_config` visits them.
+fn all_entries(model: &GovModel) -> Vec<(usize, Entry)> {
+    (1..4usize).flat_map(|who| entries(model, who).into_iter().map(move |e| (who, e))).collect()
 }
 
 type CloneKey = (u16, u16);
@@ -200,6 +248,8 @@ struct Failure {
     family: String,
     config: Vec<Action>,
     who: usize,
+    /// the entry point of the failing request
+    entry: Entry,
     item: String,
     detail: serde_json::Value,
     /// authz: every single-rule relaxation that reproduces the implementation's matrix
@@ -216,9 +266,64 @@ struct Tally {
     consequent: u64,
     battery_skipped_same_authority: u64,
     gate_unspecified: u64,
+    named_chain_sessions: u64,
+    named_chain_sessions_refused_whole: u64,
     nontrivial: Vec<u64>,
     failures: Vec<Failure>,
     samples: Vec<serde_json::Value>,
+}
+
+impl Tally {
+    fn absorb(&mut self, t: Tally) {
+        self.configs += t.configs;
+        self.transitions += t.transitions;
+        self.battery_answers += t.battery_answers;
+        self.matrix_decisions += t.matrix_decisions;
+        self.overdenied += t.overdenied;
+        self.consequent += t.consequent;
+        self.battery_skipped_same_authority += t.battery_skipped_same_authority;
+        self.gate_unspecified += t.gate_unspecified;
+        self.named_chain_sessions += t.named_chain_sessions;
+        self.named_chain_sessions_refused_whole += t.named_chain_sessions_refused_whole;
+        self.nontrivial.extend(t.nontrivial);
+        self.failures.extend(t.failures);
+        for s in t.samples {
+            if self.samples.len() < 4 {
+                self.samples.push(s);
+            }
+        }
+    }
+}
+
+/// The fixed Delegation-chain scenarios: (base, events), every base alone and
+/// followed by each event.
+fn delegation_scenarios() -> Vec<Vec<Action>> {
+    use Action::*;
+    let families: Vec<(Vec<Action>, Vec<Action>)> = vec![
+        // one link rooted in p1's delegable Grant
+        (vec![GAll, Del], vec![RevokeDel, RevokeOld, Suspend1, Suspend2]),
+        // two links rooted in the owner: owner -> p1 -> p2
+        (vec![DelSys, ReDel], vec![RevokeDel, RevokeDelNew, Suspend1, Suspend2]),
+        // two links rooted in p1's delegable Grant: p1 -> p2 -> co (co no longer an owner)
+        (vec![CoUnown, GAll, DelMid, DelTail], vec![RevokeDel, RevokeDelNew, RevokeOld, Suspend1, Suspend2, SuspendCo]),
+        // three links rooted in the owner: owner -> p1 -> p2 -> co
+        (vec![CoUnown, DelSys, DelMid, DelTail], vec![RevokeDel, RevokeDelMid, RevokeDelNew, Suspend1, Suspend2, SuspendCo]),
+        // a link that has expired, under an unbounded and under an expired Grant
+        (vec![GAll, DelExp], vec![]),
+        (vec![GExpired, DelExp], vec![]),
+        // two one-link chains to the same delegate: naming one must not draw on the other
+        (vec![GAll, Del, DelKind], vec![RevokeDel, RevokeDelNew]),
+    ];
+    let mut out = Vec::new();
+    for (base, events) in families {
+        out.push(base.clone());
+        for e in events {
+            let mut seq = base.clone();
+            seq.push(e);
+            out.push(seq);
+        }
+    }
+    out
 }
 
 fn strength_of(who: usize) -> (u8, &'static str) {
@@ -234,10 +339,12 @@ async fn eval_config(
     items: &[Item],
     clones: &Clones,
     tally: &mut Tally,
-    only: Option<(usize, &str)>,
-    // run the battery for p1 / p2? (false: an identical resolved authority
-    // already answered it; the decision matrix is compared regardless)
-    battery_for: [bool; 3],
+    only: Option<(usize, &Entry, &str)>,
+    // run the battery for the n-th (Principal, entry point) of `all_entries`?
+    // (false: an identical resolved authority already answered it through the
+    // same kind of entry point; the decision matrix is compared regardless;
+    // None: always)
+    battery_for: Option<&[bool]>,
 ) {
     let mut cfg = Cfg::open(nexus, tag, &built.id_of).await;
     for a in config {
@@ -250,21 +357,21 @@ async fn eval_config(
     for (i, minted) in cfg.minted.iter().enumerate() {
         if *minted != Some(i as u64 + 1) {
             tally.failures.push(Failure {
-                kind: "policy-version", family: "minted".into(), config: config.to_vec(), who: 0, item: format!("publish #{}", i + 1),
+                kind: "policy-version", family: "minted".into(), config: config.to_vec(), who: 0, entry: Entry::Ambient, item: format!("publish #{}", i + 1),
                 detail: json!({"publish_policy_answered": minted.map(|v| json!(v)).unwrap_or(json!("an error")), "expected_version": i + 1}),
                 alts: vec![],
             });
             break;
         }
     }
-    if !cfg.minted.is_empty() && only.is_none_or(|(_, l)| l == "describe-access") {
+    if !cfg.minted.is_empty() && only.is_none_or(|(_, _, l)| l == "describe-access") {
         let session = nexus.session(AuthContext::principal(&cfg.principal[2]).with_auth_strength(auth_strength::STRONG));
         let r = vgov::fixture::exec(&session, "DESCRIBE ACCESS", None).await;
         let reported = r.first_result().and_then(|v| v["policy"]["version"].as_u64());
         tally.battery_answers += 1;
         if reported != Some(cfg.minted.len() as u64) {
             tally.failures.push(Failure {
-                kind: "policy-version", family: "reported".into(), config: config.to_vec(), who: 2, item: "describe-access".into(),
+                kind: "policy-version", family: "reported".into(), config: config.to_vec(), who: 2, entry: Entry::Ambient, item: "describe-access".into(),
                 detail: json!({"DESCRIBE ACCESS policy.version": reported, "versions_published": cfg.minted.len()}),
                 alts: vec![],
             });
@@ -273,19 +380,36 @@ async fn eval_config(
     let resources = matrix_resources(built);
     // 1 = p1, 2 = p2, 3 = co (the second owner: decision matrix only, an owner's
     // answers are the unfiltered ones)
-    for who in 1..4usize {
-        if let Some((w, _)) = only {
-            if w != who {
+    // what the implementation decided for the Principal's session that names no chain
+    let mut ambient_cells: Vec<bool> = Vec::new();
+    for (pair_index, (who, entry)) in all_entries(&cfg.model).into_iter().enumerate() {
+        let entry = &entry;
+        // a replay runs one (Principal, entry point); the same Principal's
+        // chain-less session is still decided, for the narrowing relation
+        let mut matrix_only = false;
+        if let Some((w, e, _)) = only {
+            if w != who || (e != entry && entry.is_named()) {
                 continue;
             }
+            matrix_only = e != entry;
         }
         let (strength, strength_name) = strength_of(who);
-        let auth = AuthContext::principal(&cfg.principal[who]).with_auth_strength(strength_name);
+        let mut auth = AuthContext::principal(&cfg.principal[who]).with_auth_strength(strength_name);
+        if entry.is_named() {
+            auth = auth.with_delegation_chain(cfg.chain_ids(entry.chain()));
+            tally.named_chain_sessions += 1;
+        }
         let session = nexus.session(auth.clone());
-        let authority = session
-            .effective_authority(DEFAULT_SPACE)
-            .await
-            .expect("machinery: effective_authority of a registered Principal");
+        // a named chain that is not in force / not a chain refuses the request as a whole
+        let authority = match session.effective_authority(DEFAULT_SPACE).await {
+            Ok(a) => Some(a),
+            Err(e) if entry.is_named() => {
+                let _ = e;
+                tally.named_chain_sessions_refused_whole += 1;
+                None
+            }
+            Err(e) => panic!("machinery: effective_authority of a registered Principal: {e:?}"),
+        };
 
         // --- decision matrix: AuthModel vs implementation -----------------
         let mut cells: Vec<(&str, &Res, bool)> = Vec::new();
@@ -293,8 +417,8 @@ async fn eval_config(
         for perm_name in MATRIX_PERMS {
             let perm = Permission::parse(perm_name).expect("machinery: known permission");
             for (mres, ires) in &resources {
-                let model = cfg.model.decide(who, strength, perm_name, mres);
-                let imp = authority.authorize(perm, ires, &auth).is_permitted();
+                let model = cfg.model.decide_via(who, strength, perm_name, mres, entry);
+                let imp = authority.as_ref().is_some_and(|a| a.authorize(perm, ires, &auth).is_permitted());
                 tally.matrix_decisions += 1;
                 cells.push((perm_name, mres, imp));
                 match (&model, imp) {
@@ -311,7 +435,7 @@ async fn eval_config(
             // one that flips the first wrong cell, marked "~").
             let mut alts: Vec<String> = Vec::new();
             for (name, x) in GovModel::relaxations() {
-                let same = cells.iter().all(|(perm, mres, imp)| match cfg.model.decide_relaxed(who, strength, perm, mres, &x) {
+                let same = cells.iter().all(|(perm, mres, imp)| match cfg.model.decide_relaxed_via(who, strength, perm, mres, &x, entry) {
                     Dec::GateUnspecified => true,
                     d => d.allowed() == *imp,
                 });
@@ -323,7 +447,7 @@ async fn eval_config(
                 let (perm, mres, _) = cells[wrong[0]];
                 GovModel::relaxations()
                     .into_iter()
-                    .find(|(_, x)| cfg.model.decide_relaxed(who, strength, perm, mres, x).allowed())
+                    .find(|(_, x)| cfg.model.decide_relaxed_via(who, strength, perm, mres, x, entry).allowed())
                     .map(|(n, _)| format!("~{n}"))
                     .unwrap_or_else(|| "unexplained".to_string())
             });
@@ -333,6 +457,7 @@ async fn eval_config(
                 family: label,
                 config: config.to_vec(),
                 who,
+                entry: entry.clone(),
                 item: format!("{perm} on {}", if mres.is_space() { "the Space".to_string() } else if mres.key.is_empty() { format!("{mres:?}") } else { mres.key.clone() }),
                 detail: json!({
                     "model": "deny", "implementation": "allow", "resource": mres,
@@ -344,32 +469,53 @@ async fn eval_config(
             });
         }
 
-        if who == 3 {
+        // --- naming a chain narrows: never a cell the chain-less session is refused ---
+        if !entry.is_named() {
+            ambient_cells = cells.iter().map(|c| c.2).collect();
+        } else if ambient_cells.len() == cells.len() {
+            if let Some(i) = (0..cells.len()).find(|i| cells[*i].2 && !ambient_cells[*i]) {
+                if wrong.is_empty() {
+                    let (perm, mres, _) = cells[i];
+                    tally.failures.push(Failure {
+                        kind: "widens", family: "NAMED_CHAIN".into(), config: config.to_vec(), who, entry: entry.clone(),
+                        item: format!("{perm} on {}", if mres.is_space() { "the Space" } else { mres.key.as_str() }),
+                        detail: json!({"session_naming_the_chain": "allowed", "session_naming_no_chain": "refused", "resource": mres}),
+                        alts: vec![],
+                    });
+                } else {
+                    tally.consequent += 1;
+                }
+            }
+        }
+
+        // an owner's answers are the unfiltered ones: decision matrix only
+        if matrix_only || (who == 3 && cfg.model.owners.contains(&3)) {
             continue;
         }
-        if !battery_for[who] && wrong.is_empty() {
+        if battery_for.is_some_and(|b| !b[pair_index]) && wrong.is_empty() {
             tally.battery_skipped_same_authority += 1;
             continue;
         }
-        let matrix_failed = tally.failures.iter().any(|f| f.kind == "authz" && f.who == who && f.config == config);
+        let matrix_failed = tally.failures.iter().any(|f| f.kind == "authz" && f.who == who && f.entry == *entry && f.config == config);
 
         // --- readable set and masks ------------------------------------------
         let mut readable = [false; N];
         let mut masked = [false; N];
         for (i, (mres, ires)) in resources[1..=N].iter().enumerate() {
-            if let Dec::Allow { masks, .. } = cfg.model.decide(who, strength, "read", mres) {
+            if let Dec::Allow { masks, .. } = cfg.model.decide_via(who, strength, "read", mres, entry) {
                 readable[i] = true;
-                let decision = authority.authorize(Permission::Read, ires, &auth);
-                let observed = !decision.constraints.fields.is_empty();
+                let decision = authority.as_ref().map(|a| a.authorize(Permission::Read, ires, &auth));
+                let observed = decision.as_ref().is_some_and(|d| !d.constraints.fields.is_empty());
                 if masks.len() == 1 {
                     let want = *masks.iter().next().unwrap();
                     masked[i] = want;
-                    if decision.is_permitted() && want && !observed {
+                    if decision.as_ref().is_some_and(|d| d.is_permitted()) && want && !observed {
                         tally.failures.push(Failure {
                             kind: "mask",
                             family: "FIELD_MASK".into(),
                             config: config.to_vec(),
                             who,
+                            entry: entry.clone(),
                             item: format!("read {}", POP[i].key),
                             detail: json!({"model": "every matching allow carries the field mask", "implementation": "no mask"}),
                             alts: vec![],
@@ -383,9 +529,9 @@ async fn eval_config(
         }
         let proper = readable.iter().any(|b| *b) && (readable.iter().any(|b| !*b) || masked.iter().any(|b| *b));
         if proper {
-            tally.nontrivial.push(util::fnv64(format!("{}|{who}", cfg.model.canonical()).as_bytes()));
+            tally.nontrivial.push(util::fnv64(format!("{}|{who}|{:?}", cfg.model.canonical(), entry.chain()).as_bytes()));
         }
-        let whole = match cfg.model.decide(who, strength, "read", &Res::space()) {
+        let whole = match cfg.model.decide_via(who, strength, "read", &Res::space(), entry) {
             Dec::Allow { open, .. } => Some(open),
             Dec::Deny => Some(false),
             Dec::GateUnspecified => None,
@@ -398,8 +544,8 @@ async fn eval_config(
         // few commands of different families instead of the whole battery
         let untouched = !cfg.model.touches(who);
         for (index, item) in items.iter().enumerate() {
-            if let Some((_, label)) = only {
-                if label != item.label {
+            if let Some((_, _, label)) = only {
+                if !label.is_empty() && label != item.label {
                     continue;
                 }
             } else if untouched && !MINI.contains(&item.label) {
@@ -408,7 +554,7 @@ async fn eval_config(
             let (command, actual, raw) = battery::run_one(&session, built, item, only.is_some()).await;
             tally.battery_answers += 1;
             let actual_text = actual.main.to_string();
-            let gate: Vec<Dec> = item.perms.iter().map(|p| cfg.model.decide(who, strength, p, &Res::space())).collect();
+            let gate: Vec<Dec> = item.perms.iter().map(|p| cfg.model.decide_via(who, strength, p, &Res::space(), entry)).collect();
             let gate_denied = gate.iter().any(|d| *d == Dec::Deny);
             let gate_open = gate.iter().all(|d| d.allowed());
             let is_denial = actual.main.get("error").and_then(|e| e.as_str()) == Some("NotAuthorized");
@@ -497,10 +643,11 @@ async fn eval_config(
                 if only.is_some() {
                     detail["raw_response"] = json!(raw);
                 }
-                tally.failures.push(Failure { kind, family, config: config.to_vec(), who, item: item.label.to_string(), detail, alts: vec![] });
+                tally.failures.push(Failure { kind, family, config: config.to_vec(), who, entry: entry.clone(), item: item.label.to_string(), detail, alts: vec![] });
             } else if proper && tally.samples.len() < 3 && item.label == "all-concepts" && !is_denial {
                 tally.samples.push(json!({
                     "config": config.iter().map(|a| a.name()).collect::<Vec<_>>(), "principal": format!("p{who}"),
+                    "named_delegation_chain": entry.chain(),
                     "readable": POP.iter().enumerate().filter(|(i, _)| readable[*i]).map(|(_, e)| e.key).collect::<Vec<_>>(),
                     "command": command, "answer": actual.main, "filtered_owner_answer": expected[index].main,
                 }));
@@ -548,16 +695,20 @@ fn main() {
         let config: Vec<Action> = r["config"].as_array().unwrap().iter().map(|n| Action::parse(n.as_str().unwrap()).expect("action name")).collect();
         let who = r["principal"].as_u64().unwrap() as usize;
         let label = r["item"].as_str().unwrap_or("").to_string();
+        let chain: Vec<usize> = r["chain"].as_array().map(|a| a.iter().filter_map(|v| v.as_u64()).map(|v| v as usize).collect()).unwrap_or_default();
+        let entry = if chain.is_empty() { Entry::Ambient } else { Entry::Named(chain) };
         let mut tally = Tally::default();
         util::block_on(async {
             let nexus = fresh_nexus("replay").await;
             let built = pop::build(&nexus, &[true; N], &[false; N]).await;
-            let only = if items.iter().any(|i| i.label == label) { Some((who, label.as_str())) } else { None };
-            eval_config(&nexus, &built, "r", &config, &items, &clones, &mut tally, only, [true; 3]).await;
+            // a battery failure re-runs its one command; a decision failure the
+            // Principal's whole matrix and battery through that entry point
+            let item_label = if items.iter().any(|i| i.label == label) { label.as_str() } else { "" };
+            eval_config(&nexus, &built, "r", &config, &items, &clones, &mut tally, Some((who, &entry, item_label)), None).await;
         });
         let want_kind = r["kind"].as_str().unwrap_or("");
         for f in &tally.failures {
-            if f.who == who && (label.is_empty() || f.item == label || f.kind == "authz") {
+            if f.who == who && f.entry == entry && (label.is_empty() || f.item == label || f.kind == "authz") {
                 println!("replay: {} {} p{} {}: {}", f.kind, f.family, f.who, f.item, f.detail);
                 if want_kind.is_empty() || f.kind == want_kind {
                     run.violation(Violation {
@@ -607,7 +758,7 @@ fn main() {
         for k in 1..=12u8 {
             let mut config = vec![Action::GAll];
             config.extend((1..=k).map(Action::PolChain));
-            eval_config(&nexus, &built, &format!("chain{k}"), &config, &items, &clones, &mut totals, None, [true; 3]).await;
+            eval_config(&nexus, &built, &format!("chain{k}"), &config, &items, &clones, &mut totals, None, None).await;
         }
     });
     let chain_configs = totals.configs;
@@ -627,9 +778,57 @@ fn main() {
     let threads = util::n_threads();
     let deadline = std::time::Instant::now() + std::time::Duration::from_secs_f64(run.remaining_s() * 0.92);
 
+    // the battery runs for the first configuration (in this fixed order) that
+    // gives a Principal a resolved authority not seen before through that kind
+    // of entry point
+    let battery_flags = |state: &GovModel, seen_views: &mut BTreeSet<u64>| -> Vec<bool> {
+        all_entries(state)
+            .iter()
+            .map(|(who, entry)| match view_key(state, *who, entry) {
+                Some(key) => seen_views.insert(key),
+                None => true,
+            })
+            .collect()
+    };
+
+    // ---- fixed scenarios: Delegation chains and the events that end a link -----------
+    // one-, two- and three-link chains rooted in the owner or in a delegable
+    // Grant, each alone and after every event that revokes a link (tail, middle,
+    // root), revokes the Grant under the root, or suspends a Principal on the
+    // chain; an expired link; two chains to one delegate. Every delegate is
+    // decided and answers the battery through every entry point of `entries`.
+    let scenario_work: Vec<(Vec<Action>, Vec<bool>)> = delegation_scenarios()
+        .into_iter()
+        .map(|seq| {
+            let state = model_state(&seq).expect("machinery: a scenario action is a no-op");
+            seen_states.insert(util::fnv64(state.canonical().as_bytes()));
+            let flags = battery_flags(&state, &mut seen_views);
+            (seq, flags)
+        })
+        .collect();
+    let scenario_configs = scenario_work.len() as u64;
+    {
+        let chunks: Vec<(usize, Vec<(Vec<Action>, Vec<bool>)>)> = scenario_work.chunks(3).map(|c| c.to_vec()).enumerate().collect();
+        let (items_ref, clones_ref) = (&items, &clones);
+        let results = util::par_map(chunks, threads, move |(ci, chunk)| {
+            let mut tally = Tally::default();
+            util::block_on(async {
+                let nexus = fresh_nexus(&format!("scenario-{ci}")).await;
+                let built = pop::build(&nexus, &[true; N], &[false; N]).await;
+                for (k, (config, flags)) in chunk.iter().enumerate() {
+                    eval_config(&nexus, &built, &format!("s{ci}x{k}"), config, items_ref, clones_ref, &mut tally, None, Some(flags)).await;
+                }
+            });
+            tally
+        });
+        for t in results {
+            totals.absorb(t);
+        }
+    }
+
     'depths: for depth in 1..=max_depth {
         let t_depth = std::time::Instant::now();
-        let mut work: Vec<(Vec<Action>, [bool; 3])> = Vec::new();
+        let mut work: Vec<(Vec<Action>, Vec<bool>)> = Vec::new();
         for seq in sequences(alphabet, depth) {
             let Some(state) = model_state(&seq) else {
                 pruned_noop += 1;
@@ -641,22 +840,14 @@ fn main() {
                 pruned_state += 1;
                 continue;
             }
-            // the battery runs for the first configuration (in this fixed order)
-            // that gives a Principal a resolved authority not seen before
-            let mut flags = [false; 3];
-            for who in 1..3 {
-                flags[who] = match view_key(&state, who) {
-                    Some(key) => seen_views.insert(key),
-                    None => true,
-                };
-            }
+            let flags = battery_flags(&state, &mut seen_views);
             work.push((seq, flags));
         }
         // chunks share a Nexus; membership and order inside a chunk are fixed,
         // so the verdict does not depend on thread scheduling.
         eprintln!("depth {depth}: model pre-pass {:.1}s", t_depth.elapsed().as_secs_f64());
         let chunk_len = 24;
-        let chunks: Vec<(usize, Vec<(Vec<Action>, [bool; 3])>)> = work.chunks(chunk_len).map(|c| c.to_vec()).enumerate().collect();
+        let chunks: Vec<(usize, Vec<(Vec<Action>, Vec<bool>)>)> = work.chunks(chunk_len).map(|c| c.to_vec()).enumerate().collect();
         let items_ref = &items;
         let clones_ref = &clones;
         let results = util::par_map(chunks, threads, move |(ci, chunk)| {
@@ -668,7 +859,7 @@ fn main() {
                 let nexus = fresh_nexus(&format!("main-{depth}-{ci}")).await;
                 let built = pop::build(&nexus, &[true; N], &[false; N]).await;
                 for (k, (config, flags)) in chunk.iter().enumerate() {
-                    eval_config(&nexus, &built, &format!("{depth}x{ci}x{k}"), config, items_ref, clones_ref, &mut tally, None, *flags).await;
+                    eval_config(&nexus, &built, &format!("{depth}x{ci}x{k}"), config, items_ref, clones_ref, &mut tally, None, Some(flags)).await;
                 }
             });
             (true, tally)
@@ -677,21 +868,7 @@ fn main() {
         let mut complete = true;
         for (done, t) in results {
             complete &= done;
-            totals.configs += t.configs;
-            totals.transitions += t.transitions;
-            totals.battery_answers += t.battery_answers;
-            totals.matrix_decisions += t.matrix_decisions;
-            totals.overdenied += t.overdenied;
-            totals.consequent += t.consequent;
-            totals.battery_skipped_same_authority += t.battery_skipped_same_authority;
-            totals.gate_unspecified += t.gate_unspecified;
-            totals.nontrivial.extend(t.nontrivial);
-            totals.failures.extend(t.failures);
-            for s in t.samples {
-                if totals.samples.len() < 4 {
-                    totals.samples.push(s);
-                }
-            }
+            totals.absorb(t);
         }
         if !complete {
             run.cap_hit(&format!("time budget: depth {depth} not completed (completed depth {completed_depth})"));
@@ -720,6 +897,9 @@ fn main() {
     run.add("battery_failures_explained_by_a_decision_disagreement", totals.consequent);
     run.add("batteries_skipped_same_resolved_authority", totals.battery_skipped_same_authority);
     run.add("gate_unspecified_skipped", totals.gate_unspecified);
+    run.add("named_chain_sessions_decided", totals.named_chain_sessions);
+    run.add("named_chain_sessions_refused_as_a_whole", totals.named_chain_sessions_refused_whole);
+    run.add("delegation_chain_scenario_configurations", scenario_configs);
     run.set("completed_depth", json!(completed_depth));
     run.add("policy_chain_configurations", chain_configs);
     run.set("alphabet", json!(alphabet.iter().map(|a| a.name()).collect::<Vec<_>>()));
@@ -731,8 +911,9 @@ fn main() {
         run.sample(s);
     }
     run.rule("fixed scenario: one policy id published 12 times ([GAll, PolChain(1..k)], k = 1..12), after every publish: minted version = k, DESCRIBE ACCESS names version k, decision matrix and battery against AuthModel's greatest-version policy");
+    run.rule("fixed scenarios: Delegation chains of one, two and three links, rooted in the owner or in a delegable Grant, each alone and after every event that revokes a link (tail / middle / root), revokes the Grant under the root or suspends a Principal on the chain; a link that has expired; two chains to one delegate");
     run.rule(&format!(
-        "every sequence of <= {full_depth} control-plane actions over the alphabet, plus for depth <= {max_depth} the first sequence reaching each further canonical AuthModel state (no-op actions pruned); per configuration: p1 (standard), p2 (strong authentication) and the co-owner (matrix only) x decision matrix ({} permissions x {} resources) x {} battery commands (answered once per distinct resolved authority; a Principal no record was ever about answers 7 commands of different families); distinct non-trivial = (canonical state, Principal) whose readable set is a proper non-empty subset of the population or carries a field mask",
+        "every sequence of <= {full_depth} control-plane actions over the alphabet (which includes the host moving the Space's default classification to sensitive / secret), plus for depth <= {max_depth} the first sequence reaching each further canonical AuthModel state (no-op actions pruned); per configuration: p1 (standard), p2 (strong authentication) and co (a co-owner: matrix only while it owns the Space) x entry point (session naming no Delegation chain; for every Delegation to the Principal, in force or not, a session naming that Delegation alone and one naming its whole chain; sessions naming a Delegation conferred on somebody else or two Delegations that do not descend from one another) x decision matrix ({} permissions x {} resources) x {} battery commands (answered once per distinct resolved authority and kind of entry point; a Principal no record was ever about answers 7 commands of different families); a session naming a chain is never allowed what the same Principal's chain-less session is refused; distinct non-trivial = (canonical state, Principal, entry point) whose readable set is a proper non-empty subset of the population or carries a field mask",
         MATRIX_PERMS.len(), N + 6, items.len()
     ));
     run.assume("AuthModel (vgov/src/model.rs) restates docs/anda_cognitive_nexus.md §10 and the rows.rs/decision.rs doc comments for the bounded alphabet; answers are compared after the canonicalisation documented in vgov/src/battery.rs (ids -> logical keys; clocks, tx ids and Space sequence numbers dropped)");
@@ -787,19 +968,21 @@ fn main() {
         if cause == "mixed" && pure.contains(&(kind.clone(), f0, s0)) {
             continue;
         }
-        fails.sort_by_key(|f| (f.config.len(), f.config.clone(), f.who, f.item.clone()));
+        fails.sort_by_key(|f| (f.config.len(), f.config.clone(), f.who, f.entry.clone(), f.item.clone()));
         let f = fails[0];
-        eprintln!("group {kind} {family}: {} cases; first: {:?} p{} {}", fails.len(), f.config, f.who, f.item);
+        eprintln!("group {kind} {family}: {} cases; first: {:?} p{} chain {:?} {}", fails.len(), f.config, f.who, f.entry.chain(), f.item);
         run.violation(Violation {
             signature: format!("C19|{kind}|{family}"),
             summary: format!(
-                "{kind} in {family}: after control actions {:?}, p{} ({}) — {} ({} failing cases in this group)",
-                f.config.iter().map(|a| a.name()).collect::<Vec<_>>(), f.who, f.item,
+                "{kind} in {family}: after control actions {:?}, p{}{} ({}) — {} ({} failing cases in this group)",
+                f.config.iter().map(|a| a.name()).collect::<Vec<_>>(), f.who,
+                if f.entry.is_named() { format!(" on a session naming the Delegation chain {:?} (indexes in creation order)", f.entry.chain()) } else { String::new() },
+                f.item,
                 serde_json::to_string(&f.detail).unwrap_or_default().chars().take(900).collect::<String>(), fails.len()
             ),
             replay: json!({
                 "config": f.config.iter().map(|a| a.name()).collect::<Vec<_>>(),
-                "principal": f.who, "item": f.item, "kind": kind, "detail": f.detail,
+                "principal": f.who, "chain": f.entry.chain(), "item": f.item, "kind": kind, "detail": f.detail,
             }),
         });
     }
